@@ -8,7 +8,11 @@ import lsp_client  # noqa: E402
 
 
 class ServerDied(Exception):
-    pass
+    """the server process ended (EOF on its stdout) before answering"""
+
+
+class ServerSlow(Exception):
+    """no answer within the (very generous) deadline although the process is alive: a loaded machine, never a verdict"""
 
 
 def _rng(r):
@@ -18,11 +22,15 @@ def _rng(r):
 class NavSession:
     def __init__(self, mos, files, workdir, entry="main.asm"):
         self.files = dict(files)
-        self.s = lsp_client.LspServer(mos, disk=files, entry=entry, workdir=workdir)
+        self.s = lsp_client.LspServer(mos, disk=files, entry=entry, workdir=workdir, timeout=300.0)
         for n, t in files.items():
             self.s.did_open(n, t)
         b = self.s.barrier()
+        if b.kind == "timeout":
+            self.s.kill()
+            raise ServerSlow("no answer after didOpen within the deadline")
         if b.kind != "result":
+            self.s.kill()
             raise ServerDied("no answer after didOpen: %r" % b)
 
     def close(self):
@@ -39,7 +47,9 @@ class NavSession:
 
     def _req(self, method, params):
         r = self.s.request(method, params)
-        if r.kind in ("died", "timeout"):
+        if r.kind == "timeout":
+            raise ServerSlow("%s: no answer within the deadline" % method)
+        if r.kind == "died":
             raise ServerDied("%s: %r" % (method, r))
         return r
 
